@@ -78,6 +78,11 @@ def point_based_value_iteration(
     # alpha vectors - one per belief
     bv = np.zeros((len(bb), len(pomdp.state_list)))
 
+    # results of zero backups (horizon <= 0)
+    i = 0
+    bsa_vf = np.zeros((len(bb), len(ss), len(aa)))
+    ba_vf_max_idx = np.zeros(len(bb), dtype=int)
+
     for i in range(horizon):
         ### Alpha-vectors over states (s) associated with each action (a),
         ### observation (o), and next-belief (p)
